@@ -184,6 +184,68 @@ theorem seqSorted_spec {c3 : α → α → Int} (cmp : Cmp3 ε α) (hp : ∀ i a
           · exact ih (n + 1)
     exact this _ _ hpre
 
+/-! ### `TryHeap` and `quickselect`: conservation for every comparator
+
+(`Conserves P xs r`: the array in an `ok` payload, or the array a failure leaves behind, is a
+permutation of `xs`; a `panic` outcome — an out-of-bounds index — claims nothing.) -/
+
+/-- `push`: afterwards the heap holds the old elements and the new one — also when the comparator
+fails while sifting up (the `Hole` guard puts the element back) -/
+theorem heap_push_conserves (le : Cmp ε α) (data : List α) (item : α) (n : Nat) :
+    Conserves id (data ++ [item]) (Heap.push le data item n) :=
+  Heap.push_conserves le data item n
+
+/-- `pop`: the element returned together with the remaining heap is the old heap; when the comparator
+fails while sifting down, the remaining heap together with the element that had been taken out (and is
+dropped with the error) is the old heap: nothing is lost or duplicated -/
+theorem heap_pop_conserves (le : Cmp ε α) (data : List α) (n : Nat) :
+    Heap.PopPost data (Heap.pop le data n) := by
+  unfold Heap.pop
+  cases hl : data.getLast? with
+  | none =>
+    have : data = [] := List.getLast?_eq_none_iff.mp hl
+    simp [this, Heap.PopPost]
+  | some last =>
+    simp only
+    have hdata : data = data.dropLast ++ [last] := by
+      have := List.dropLast_append_getLast? last (by simpa using hl)
+      exact this.symm
+    cases hd : data.dropLast with
+    | nil =>
+      simp only
+      rw [hd] at hdata
+      rw [hdata]; simp [Heap.PopPost]
+    | cons root t =>
+      simp only
+      have hc := Heap.siftDownToBottom_conserves le ((root :: t).set 0 last) 0 n
+      have hperm : (root :: (root :: t).set 0 last).Perm data := by
+        rw [hdata, hd]
+        simp only [List.set_cons_zero]
+        refine (List.Perm.swap last root t).trans ?_
+        simpa using (List.perm_append_comm (l₁ := [last]) (l₂ := root :: t))
+      have hhead : data.head? = some root := by rw [hdata, hd]; rfl
+      revert hc
+      cases Heap.siftDownToBottom le ((root :: t).set 0 last) 0 n with
+      | ok d' m => intro hc; exact ((List.Perm.cons root hc).trans hperm)
+      | fail e b m => intro hc; exact ⟨root, hhead, (List.Perm.cons root hc).trans hperm⟩
+      | panic => intro _; trivial
+
+/-- `quickselect` (`nth_smallest` / `nth_largest` / `median`): the selected element is an element of the
+array, the array is only permuted, and a comparator failure leaves a permutation behind -/
+theorem quickselect_conserves (cmp : Cmp3 ε α) (arr : List α) (target : Nat) :
+    Select.Post arr (Select.quickselect cmp arr target) := by
+  unfold Select.quickselect
+  split
+  · trivial
+  · have hc := Select.selectLoop_conserves cmp target (arr.length + 1) arr 0 (arr.length - 1) 0
+    cases hr : Select.selectLoop cmp target (arr.length + 1) arr 0 (arr.length - 1) 0 with
+    | ok v m =>
+      obtain ⟨x, arr'⟩ := v
+      rw [hr] at hc
+      exact ⟨hc, hc.subset (Select.selectLoop_mem cmp _ _ _ _ _ _ _ _ _ hr)⟩
+    | fail e b m => rw [hr] at hc; exact hc
+    | panic => trivial
+
 /-! ## derived eq / hash / cmp and the relational operators
 
 `PureEq f g` etc.: the component function never answers an error value and computes `g`.
